@@ -73,10 +73,69 @@ def contracts(T, reg, ctx):
             ("C06:every-argument-pair-of-the-invocation-is-indexed-and-nothing-else-changes",
              lambda c: _indexed(c, idx_t, PAIR, KA, ops.set_keys(_args_of(c)).term))])],
         properties=["C06"])
-    out = [idx_inv]   # filter_by_key_arguments folds a *list of sets*: outside the encoder's decidable reach -> bounded stand-in below
+    proj = call_projection(T, reg, KA)
+    out = [idx_inv, proj]   # filter_by_key_arguments folds a *list of sets*: outside the encoder's decidable reach -> bounded stand-in below
     for c in out:
         reg.contracts[c.key + "#leaf"] = c   # do not shadow the abstract glue contracts registered under the same method name
     return out
+
+
+def call_projection(T, reg, KA):
+    """Call.serialized_args_for_concurrency_control: the lookup key is a restriction of the SAME serialized mapping that gets indexed
+    (Call.serialized_arguments, i.e. what the client data store produced - references for large values included)."""
+    from pyvc.types import Atom
+    from pyvc.values import OK, Val, mk_fresh
+    CALL = "pynenc.call"
+    OKA = Opt(KA)
+    PYV = Atom("PyValue")
+    KWARGS = MapT(STR, PYV)
+    ser_args = z3.Function("client_data_store_serialize_arguments", KWARGS.sort(), KA.sort())
+    raw_ser = z3.Function("serializer_serialize", PYV.sort(), STR.sort())
+    if "CallTaskConf" not in reg.shapes:
+        reg.add_shape(Shape("CallTaskConf", fields={"key_arguments": SeqT(STR), "disable_cache_args": SeqT(STR)}))
+        reg.add_shape(Shape("CallTask", fields={"conf": ObjT("CallTaskConf"), "app": ObjT("CallApp")}))
+        reg.add_shape(Shape("CallArgs", fields={"kwargs": KWARGS}))
+        reg.add_shape(Shape("CallCDS", fields={}, abstract_methods={"serialize_arguments": "CallCDS.serialize_arguments"}))
+        reg.add_shape(Shape("CallSerializer", fields={}, abstract_methods={"serialize": "CallSerializer.serialize"}))
+        reg.add(Contract(key="CallSerializer.serialize", shape="CallSerializer", params={"obj": PYV}, result=STR, frame=[], assumed=True, check_invariants=False,
+                         effect_events=False, cases=[Case("raw", ensures=[("the-raw-serialization", lambda c: c.result == raw_ser(c.arg("obj")))])],
+                         note="the configured serializer applied to one value: NOT the stored form (large values are replaced by references by the client data store)"))
+        reg.add_shape(Shape("CallApp", fields={"client_data_store": ObjT("CallCDS"), "serializer": ObjT("CallSerializer")}))
+        reg.add(Contract(key="CallCDS.serialize_arguments", shape="CallCDS", params={"kwargs": KWARGS, "disable_cache_args": SeqT(STR)}, result=KA, frame=[],
+                         assumed=True, check_invariants=False, effect_events=False,
+                         cases=[Case("serialized", ensures=[("the-stored-form-of-the-arguments", lambda c: c.result == ser_args(c.arg("kwargs")))])],
+                         note="client data store: argument name -> serialized value or reference key (C15)"))
+        reg.add_shape(Shape("CallObj", fields={"task": ObjT("CallTask"), "_arguments": ObjT("CallArgs"), "_serialized_arguments": OKA},
+                            cls=(CALL, "Call")))
+        reg.shapes["CallObj"].properties = ("serialized_arguments", "arguments", "app")
+    CC = lambda m: T.CCType.const(m)
+    indexed = lambda c: z3.If(OKA.is_some(c.old("_serialized_arguments")), OKA.val(c.old("_serialized_arguments")), ser_args(c.f("_arguments.kwargs")))
+
+    def restricted(c):
+        k = z3.Const(fresh_name("pk"), STR.sort())
+        keys = ops.seq_elems(c.f("task.conf.key_arguments"), STR.sort())
+        return z3.ForAll([k], z3.Select(OKA.val(c.result), k) == z3.If(z3.Select(keys, k), z3.Select(indexed(c), k), KA.opt.none()))
+
+    def keys_present(c):
+        k = z3.Const(fresh_name("kp"), STR.sort())
+        keys = ops.seq_elems(c.f("task.conf.key_arguments"), STR.sort())
+        return z3.ForAll([k], z3.Implies(z3.Select(keys, k), KA.opt.is_some(z3.Select(indexed(c), k))))
+    mode = lambda c: c.arg("concurrency_control")
+    return Contract(
+        key=f"{CALL}:Call.serialized_args_for_concurrency_control", shape="CallObj", params={"concurrency_control": T.CCType}, result=OKA,
+        frame=["_serialized_arguments"],
+        requires=[("the-key-arguments-are-arguments-of-the-call", keys_present),
+                  ("a-cached-serialization-is-the-stored-form", lambda c: z3.Implies(OKA.is_some(c.f("_serialized_arguments")),
+                                                                                  OKA.val(c.f("_serialized_arguments")) == ser_args(c.f("_arguments.kwargs"))))],
+        cases=[Case("projection", ensures=[
+            ("C06/C07:no-filter-for-DISABLED-and-TASK", lambda c: z3.Implies(z3.Or(mode(c) == CC("DISABLED"), mode(c) == CC("TASK")), OKA.is_none(c.result))),
+            ("C06/C07:ARGUMENTS=the-whole-indexed-mapping", lambda c: z3.Implies(mode(c) == CC("ARGUMENTS"), c.result == OKA.some(indexed(c)))),
+            ("C06/C07:KEYS=the-indexed-mapping-restricted-to-the-key-arguments", lambda c: z3.Implies(mode(c) == CC("KEYS"), z3.And(OKA.is_some(c.result), restricted(c)))),
+            ("only-caches-the-stored-form", lambda c: z3.Or(c.f("_serialized_arguments") == c.old("_serialized_arguments"),
+                                                          c.f("_serialized_arguments") == OKA.some(ser_args(c.f("_arguments.kwargs"))))),
+        ])], properties=["C06", "C07"],
+        note="the mapping that index_arguments_for_concurrency_control stores is invocation.call.serialized_arguments; a lookup key built any other way "
+             "(e.g. serialising the raw values again) does not match references of externally stored values")
 
 
 def _args_of(c):
